@@ -88,9 +88,9 @@ class ExceptionsEmitter:
         if self.overall_project_root:
             core_path = Path(core_dir).resolve()
             project_root = Path(self.overall_project_root).resolve()
-            # Check if there are other client directories at the same level
-            parent_dir = core_path.parent
-            return parent_dir == project_root or parent_dir.parent == project_root
+            # The core package may live at any depth below the project root (a.b.c.core): other clients can
+            # share it wherever it is, so the registry must be consulted for all of them
+            return project_root in core_path.parents
         return False
 
     def _update_registry(self, registry_path: str, client_name: str, status_codes: list[int]) -> list[int]:
